@@ -19,6 +19,9 @@ CLAIMS = {
     "C04": ("shadow model of generated boundary-condition programs (overlapping sets, dofs entered 1-3 times, constants/arrays/callables) checked against the solution returned by Solve(): constrained values, free-dof residual of the assembled system, orphan nodes, all installed back-ends (scipy, cg, bicg, gmres, lgmres, lsq_linear) judged by the residual they promise, Lagrange and beam-connection paths against an independent dense KKT solve, Newton-incremental solves with non-zero and repeated prescribed values",
             "direct 1e-9 / iterative 1e-4 relative residual; pypardiso/petsc not installed; dense KKT reference <= 600 dofs",
             "shadow-model oracle of the BC program + residual monitor at the Solve boundary"),
+    "C05": ("every executed step of seeded step histories (all 7 algorithms, dt over 4 decades of the fundamental period, random alpha/beta/gamma, arbitrary prior states, switching algorithm and dt between steps, Elastic with Rayleigh damping, Thermal, Beam, WeakForms, ProbeSimu) is judged against an executable model of the documented schemes: corrector relations, discrete equation of motion at the evaluation point on free dofs, weights = derivatives of the evaluation states, evaluation states themselves; offline energy checker over undamped histories; Newton-incremental path against the direct one",
+            "loads constant within a step; parameter ranges as accepted by the setters minus singular end points; energy verdict only when round-off leaves a 1e-6 margin",
+            "reference-model oracle (executable time-scheme model) at Solve entry/exit + energy trace checker"),
 }
 
 
